@@ -35,6 +35,9 @@ from cell_type_mapper.cell_by_gene.cell_by_gene import (
     CellByGeneMatrix)
 
 
+import cell_type_mapper.utils.verif_hooks as verif_hooks
+
+
 def precompute_summary_stats_from_h5ad(
         data_path: Union[str, pathlib.Path],
         column_hierarchy: Optional[List[str]],
@@ -563,6 +566,12 @@ def _process_chunk_spec(
     row chunks to process
     """
 
+    if verif_hooks.on():
+        verif_hooks.gate(
+            'stats.before',
+            name=pathlib.Path(chunk_specification_list[0][0]).name,
+            r0=chunk_specification_list[0][1])
+
     t0 = time.time()
     time_reading = 0.0
     n_genes = len(gene_names)
@@ -605,11 +614,23 @@ def _process_chunk_spec(
             n_clusters=n_clusters,
             buffer_dict=buffer_dict)
 
+    if verif_hooks.on():
+        verif_hooks.gate(
+            'stats.mid',
+            name=pathlib.Path(chunk_specification_list[0][0]).name,
+            r0=chunk_specification_list[0][1])
+
     w_t0 = time.time()
     with h5py.File(buffer_path, 'w') as dst:
         for k in buffer_dict:
             dst.create_dataset(k, data=buffer_dict[k])
     time_writing = time.time()-w_t0
+
+    if verif_hooks.on():
+        verif_hooks.gate(
+            'stats.after',
+            name=pathlib.Path(chunk_specification_list[0][0]).name,
+            r0=chunk_specification_list[0][1])
     print(f'finally process {os.getpid()} tot {time.time()-t0:.2e} '
           f'reading {time_reading:.2e} writing {time_writing:.2e}')
 
